@@ -274,6 +274,11 @@ def dec_macro(ctx):
     return obs
 
 
+def _is_ref_to(body, op, name):
+    e = body.expr_of_operand(op, 3)
+    return any(isinstance(x, tuple) and x[0] == "var" and x[1] == name for x in M.walk(e))
+
+
 def fnc1(ctx):
     r = "FNC1"
     f = ctx.facts()
@@ -290,7 +295,7 @@ def fnc1(ctx):
     if sw:
         b, s = sw
         t_edge, f_edge = (b, s[2]), (b, s[1].get(0))
-        # FNC1 constant materialised only under the true edge; false edge creates an empty vec
+        # every materialisation of the FNC1 codeword lies on the true edge; nothing else is ever put into `codewords`
         sites = []
         for bb, blk in enumerate(ws.blocks):
             for st in blk["stmts"]:
@@ -298,9 +303,19 @@ def fnc1(ctx):
                     e = ws.expr_of_rvalue(st["rv"])
                     if any(c[2] == "encodation::ascii::FNC1" or (c[1] == 232) for c in _consts_in(e)):
                         sites.append(bb)
-        news = [bb for bb, t in ws.calls(lambda c, _t: T.canon(c).endswith("Vec::new")) if ws.local_name(t["dest"]["l"]) == "codewords"]
-        ok = bool(sites) and all(ws.dominated_by_edge(x, t_edge) for x in sites) and bool(news) and all(ws.dominated_by_edge(x, f_edge) for x in news)
-        det = {"fnc1_sites": sites, "empty_vec": news}
+            t = ws.term(bb)
+            if t["k"] == "Call":
+                for a in t["args"]:
+                    e = ws.expr_of_operand(a, 2)
+                    if any(c[2] == "encodation::ascii::FNC1" or c[1] == 232 for c in _consts_in(e)):
+                        sites.append(bb)
+        pushes = [(bb, t) for bb, t in ws.calls(lambda c, _t: T.canon(c).endswith("Vec::push")) if ws.local_name((t["args"][0].get("move") or t["args"][0].get("copy") or {"l": 0})["l"]) in ("codewords",) or _is_ref_to(ws, t["args"][0], "codewords")]
+        push_ok = all(any(c[2] == "encodation::ascii::FNC1" or c[1] == 232 for c in _consts_in(ws.expr_of_operand(t["args"][1]))) and ws.dominated_by_edge(bb, t_edge) for bb, t in pushes)
+        ok = bool(sites) and all(ws.dominated_by_edge(x, t_edge) for x in sites) and push_ok
+        # the FNC1 value must actually reach `codewords` on the true edge (vec![FNC1] literal or push)
+        reach = bool(pushes) or any(ws.local_name(t["dest"]["l"]) == "codewords" and ws.dominated_by_edge(bb, t_edge) for bb, t in ws.calls())
+        ok = ok and reach
+        det = {"fnc1_sites": sorted(set(sites)), "pushes": [bb for bb, _t in pushes]}
     obs.append(Ob(r, "with_size", ok, "with_size seeds the codewords with [FNC1] iff start_with_fnc1, else with an empty vector", detail=det))
     # wiring: encode_data_internal(.., fnc1_start) -> with_size(.., fnc1_start); encode_eci passes self.fnc1_start
     edi = find_body(f, "data::encode_data_internal", r)
